@@ -208,5 +208,16 @@ PROPS['C19'] = {
             'Not under contract: constructors / frommatrix, the factories parallel_beam_geometry / cone_beam_geometry / helical_geometry (detector coverage), geometry slicing, shift functions other than the default',
     'technique': 'contract-based deductive verification: symbolic execution of the real NumPy code on object arrays with symbolic entries, trigonometric normal form (c^2 + s^2 = 1), polynomial identities by z3 / sympy',
 }
+PROPS['C18'] = {
+    'level': 'proof',
+    'text': 'Deductive for the part of the property ODL itself implements (the FFT / wavelet kernels are external): reciprocal_grid / realspace_grid are executed on grids of 1 and 2 axes with SYMBOLIC shape, '
+            'stride and minimum for every shift / halfcomplex / axes-subset / parity configuration and proved to give stride 2 pi/(n s) on transformed axes, the documented start points, n//2+1 points on the '
+            'half-complex axis, untouched other axes, realspace_grid(reciprocal_grid(g)) = g, and the frequency range used by dft_postprocess_data; the DFT operators\' _call_numpy / _call_pyfftw are executed over '
+            'an abstract DFT algebra (ifftn(v) = conj(F(conj v))/N, inversion theorem, rfftn / irfftn an inverse pair, documented pyfftw_call contract): forward == documented transform of each sign (for complex '
+            'data), inverse(forward(x)) == x, NumPy and FFTW back-ends agree.',
+    'note': 'trusted: pyvc interpreter (object-array mode), the DFT algebra axioms, uniform_grid taken by its arguments. NOT decided (out of reach of contracts on this code base): the numerical kernels of numpy.fft / '
+            'pyfftw / PyWavelets, convergence of the continuous transform to the analytic Gaussian, wavelet coefficient flattening / cropping, pre-processing phase factors, in-place plan reuse, rounding',
+    'technique': 'contract-based deductive verification: symbolic execution of the real grid arithmetic on object arrays with symbolic shape / stride, term algebra with the DFT inversion theorem for the back-end dispatch, z3',
+}
 for _k in PROPS:
     NOT_APPLICABLE.pop(_k, None)
